@@ -96,6 +96,114 @@ def gen_config(rng, ci):
     return "\n".join(head + blocks) + "\n", meta
 
 
+
+def gen_named_matcher_pair(rng, ci):
+    """One meaning, two spellings: routes that take their criteria from shared named matchers (`match @a @b`), and the same routes
+    with every reference expanded into the route's own match block (inline criteria first, then each referenced matcher's lines in
+    reference order - the order in which compile folds them).  The compiled criteria and every routing decision must be equal."""
+    nm = rng.randint(2, 4)
+    matchers = []
+    # half of the pairs: one criterion kind that the first (shared) matcher lists 3/5/6/7 times and every other matcher lists too,
+    # so that each route extends, by a further reference, a list it took over from the shared matcher
+    focus = rng.choice(["remote_ip", "host", "method", "header", "query", "header_exists", "query_exists"]) if ci % 2 == 0 else None
+    for k in range(nm):
+        lines = []
+        kinds = rng.sample(["remote_ip", "host", "method", "header", "query", "header_exists", "query_exists"], rng.randint(1, 3))
+        if focus:
+            kinds = [focus] + [x for x in kinds if x != focus][:1]
+        for kind in kinds:
+            n = rng.choice([1, 2, 3, 3, 5, 6, 7])
+            if focus and kind == focus:
+                n = rng.choice([3, 5, 6, 7]) if k == 0 else rng.choice([1, 2])
+            if kind == "remote_ip":
+                lines.append("remote_ip " + " ".join(q(p) for p in rng.sample(REMOTE_PATTERNS, min(n, len(REMOTE_PATTERNS)))))
+            elif kind == "host":
+                lines.append("host " + " ".join(q(h) for h in rng.sample(HOST_PATTERNS, min(n, len(HOST_PATTERNS)))))
+            elif kind == "method":
+                lines.append("method " + " ".join(rng.sample(CFG_METHODS, min(n, len(CFG_METHODS)))))
+            elif kind == "header":
+                for _ in range(n):
+                    lines.append("header %s %s" % (q(rng.choice(HDR_NAMES)), q(rng.choice(HDR_VALUES))))
+            elif kind == "query":
+                for _ in range(n):
+                    lines.append("query %s %s" % (q(rng.choice(Q_NAMES)), q(rng.choice(Q_VALUES))))
+            elif kind == "header_exists":
+                for _ in range(n):
+                    lines.append("header_exists " + q(rng.choice(HDR_NAMES)))
+            else:
+                for _ in range(n):
+                    lines.append("query_exists " + q(rng.choice(Q_NAMES)))
+        matchers.append(("m%d_%d" % (ci, k), lines))
+    nr = rng.randint(2, 5)
+    paths = rng.sample(PATHS, nr)
+    head = ['ingress { listen "__INGRESS__" }', 'pull_api {\n  listen "__PULL__"\n  auth token "raw:verif-c10"\n}', 'admin_api { listen "__ADMIN__" }']
+    ref_blocks = ["@%s {\n  %s\n}" % (name, "\n  ".join(lines)) for name, lines in matchers]
+    ref_routes, exp_routes = [], []
+    for ri, pth in enumerate(paths):
+        refs = [rng.choice(matchers) for _ in range(rng.randint(1, 3))]
+        if focus:
+            refs = [matchers[0], matchers[1 + ri % (nm - 1)]] + refs[2:]
+        elif ri > 0 and rng.random() < 0.7:
+            refs[0] = matchers[0]          # several routes start from the same matcher
+        inline = gen_match(rng) if (rng.random() < 0.35 and not focus) else []
+        tail = "pull { path %s }" % q("/pull/nm%dn%d" % (ci, ri))
+        rb = []
+        if inline:
+            rb.append("match {\n    " + "\n    ".join(inline) + "\n  }")
+        if rng.random() < 0.5:
+            rb.append("match " + " ".join("@" + n for n, _ in refs))
+        else:
+            rb += ["match @" + n for n, _ in refs]
+        ref_routes.append("%s {\n  %s\n  %s\n}" % (q(pth), "\n  ".join(rb), tail))
+        allx = list(inline) + [l for _, ls in refs for l in ls]
+        exp_routes.append("%s {\n  match {\n    %s\n  }\n  %s\n}" % (q(pth), "\n    ".join(allx), tail))
+    return "\n".join(head + ref_blocks + ref_routes) + "\n", "\n".join(head + exp_routes) + "\n"
+
+
+def named_matcher_equivalence(ctx, info, rng, requests, quick):
+    n = 24 if quick else 200
+    pairs = [gen_named_matcher_pair(rng, 9000 + i) for i in range(n)]
+    texts = [t for pr in pairs for t in pr]
+    rc, out, err = C.harness_run(info["hbin"], ["resolve"], {"configs": texts, "requests": requests})
+    if rc != 0:
+        raise RuntimeError("resolve harness failed (named matchers): " + err[-1500:])
+    outs = json.loads(out)["configs"]
+    stats = {"pairs": n, "both_compiled": 0, "decisions_compared": 0, "shared_first_matcher_routes": 0}
+    keys = ("channel", "path", "methods", "hosts", "headers", "header_exists", "query", "query_exists", "remote", "targets")
+    for i, (tr, tx) in enumerate(pairs):
+        a, b = outs[2 * i], outs[2 * i + 1]
+        if a["ok"] != b["ok"]:
+            C.report(ctx, "named-matcher:compile-differs", "the configuration with named matchers %s, its expanded spelling %s" % (
+                "compiles" if a["ok"] else "is refused", "compiles" if b["ok"] else "is refused"),
+                {"kind": "program", "case": {"config_with_references": tr, "config_expanded": tx}, "observed": {"errors": [a.get("errors"), b.get("errors")]}})
+            continue
+        if not a["ok"]:
+            continue
+        stats["both_compiled"] += 1
+        ra = [{k: r.get(k) for k in keys} for r in a["routes"]]
+        rb = [{k: r.get(k) for k in keys} for r in b["routes"]]
+        diff_rows = [ri for ri, (x, y) in enumerate(zip(a["rows"], b["rows"])) if (x["status"], x.get("new")) != (y["status"], y.get("new"))]
+        stats["decisions_compared"] += len(a["rows"])
+        if diff_rows:
+            ri = diff_rows[0]
+            rq = requests[ri]
+            C.report(ctx, "named-matcher:decision-differs",
+                     "a request is routed differently by a configuration whose routes reference shared named matchers and by the same configuration with the "
+                     "references written out: status %s vs %s" % (a["rows"][ri]["status"], b["rows"][ri]["status"]),
+                     {"kind": "request", "case": {"config_with_references": tr, "config_expanded": tx,
+                                                  "request": {k: (L.show(v) if isinstance(v, str) and k in ("method", "target", "host", "remote") else v) for k, v in rq.items() if k != "headers"},
+                                                  "headers": [[L.show(x), L.show(y)] for x, y in rq["headers"]]},
+                      "observed": {"with_references": a["rows"][ri], "expanded": b["rows"][ri]},
+                      "compiled_criteria_differ_in_routes": [k for k, (x, y) in enumerate(zip(ra, rb)) if x != y]})
+        elif ra != rb:
+            k = next(k for k, (x, y) in enumerate(zip(ra, rb)) if x != y)
+            C.report(ctx, "named-matcher:criteria-differ",
+                     "route %d compiles to different criteria when its matchers are referenced by name than when they are written out" % k,
+                     {"kind": "program", "case": {"config_with_references": tr, "config_expanded": tx}, "observed": {"with_references": ra[k], "expanded": rb[k]},
+                      "no_failing_input_found": True, "names": "correspondence compile(named matchers) = compile(expanded)"})
+    return stats
+
+
 def path_variants(rng, p):
     outs = [p, p + "/", p + "/x", p + "/x/y", p + "//", p + "/.", p + "/..", p + "/./x", p + "x", p + ".",
             "/" + p.lstrip("/") if p != "/" else "//", p + "/%2e%2e/jobs", p + "/../jobs", p + "/../hooks/partner",
@@ -522,6 +630,10 @@ def main(ctx, replay):
             mm["func"], [L.show(x) for x in mm["input"]] if not isinstance(mm["input"], str) else L.show(mm["input"]),
             L.show(mm["model"]) if isinstance(mm["model"], str) else mm["model"], L.show(mm["impl"]) if isinstance(mm["impl"], str) else mm["impl"]),
                  {"kind": "request", "case": mm})
+
+    # ---- the criteria the model is given come from the compiled configuration: tie compile itself by a second spelling of the same meaning
+    dist["named_matcher_equivalence"] = named_matcher_equivalence(ctx, info, rng, requests, quick)
+    evaluations += dist["named_matcher_equivalence"]["decisions_compared"]
 
     cov.update({
         "evaluations": evaluations,
